@@ -143,6 +143,37 @@ def main() -> int:
                     spec_failures.append({"suite": "metamorphic-rename", "dialect": d, "pool": "multi-part-reference-head",
                                           "original_sql": first[t][0], "renamed_sql": c, "original_result": first[t][1], "renamed_result": g,
                                           "spec": "renaming statement-local names (or adding/removing AS) leaves tables and end-to-end column pairs unchanged"})
+        # several qualified stars over relations that expose a column of the same name: which relation supplies a column of
+        # the target must not depend on how the local names are spelled (their lexicographic order in particular)
+        templ_s = [
+            "insert into tgt select {A}.*, {B}.* from (select id, a from t1) {AS}{A} join (select id, b from t2) {AS}{B} on {A}.id = {B}.id",
+            "create table tgt as select {B}.*, {A}.* from (select id, a from t1) {AS}{A}, (select id, b from t2) {AS}{B}",
+            "insert into tgt select {A}.*, {B}.*, {C}.k from (select id, a from t1) {AS}{A} join (select a, id from t2) {AS}{B} on 1 = 1 join t3 {AS}{C} on 1 = 1",
+            "insert into tgt select {B}.*, {A}.* from t1 {AS}{A} join (select id from t2) {AS}{B} on 1 = 1",
+            # (stars over CTEs are not expanded - recorded as K-C02-9 - so the CTE's name is the reported source: not generated here)
+            "insert into tgt select {A}.id, {B}.* from (select id from t1) {AS}{A} join (select id, b from t2) {AS}{B} on 1 = 1",
+        ]
+        names_s = [("c", "o", "z"), ("zeta", "o", "a1"), ("o", "c", "b"), ("stage", "detail", "x"), ("m2", "m10", "m1"), ("b", "a", "c")]
+        cases_s = []
+        for t in templ_s:
+            for asw in ("", "as "):
+                for a, b2, c2 in names_s:
+                    cases_s.append((t, t.replace("{AS}", asw).replace("{A}", a).replace("{B}", b2).replace("{C}", c2)))
+        got4 = t2tie.summaries([{"sql": c, "dialect": d, "metadata": None, "config": {}} for _, c in cases_s])
+        first = {}
+        for (t, c), g in zip(cases_s, got4):
+            ck.count()
+            dist["pools"]["several-stars"] = dist["pools"].get("several-stars", 0) + 1
+            if g.startswith("ERR:InvalidSyntax"):
+                dist["rejected_by_parser"] += 1
+                continue
+            ck.nontriv((d, "several-stars", c))
+            if t not in first:
+                first[t] = (c, g)
+            elif first[t][1] != g:
+                spec_failures.append({"suite": "metamorphic-rename", "dialect": d, "pool": "several-stars",
+                                      "original_sql": first[t][0], "renamed_sql": c, "original_result": first[t][1], "renamed_result": g,
+                                      "spec": "renaming statement-local names (or adding/removing AS) leaves tables and end-to-end column pairs unchanged"})
         # tie on a renamed variant
         recs = []
         for s in stmts[: (40 if quick else 300)]:
